@@ -431,41 +431,45 @@ def execute(p, horizon=None):
 
     # ---- figure of merit, time, differentials
     out["t_last"] = rows[-1][-1]
+    finite = all(math.isfinite(v) for r in rows for v in r)
     try:
         tt = ode.t_from_ode(res)
-        if float(tt) != rows[-1][-1]:
-            bad("t_from_ode", "not the last time", f"gives {tt!r}, last row "
-                f"time is {rows[-1][-1]!r}")
-        for use, gamma in J_MENU:
-            jj = ode.j_from_ode(res, n, use, gamma)
-            exp = M.j_exact(rows, n, use, gamma)
-            if exp is None:
-                if jj != M.FAIL_J:
-                    bad("j_from_ode", "failure row does not give 1e200",
-                        f"gives {jj!r}")
-            else:
-                if not M.rel_close(float(jj), exp):
-                    bad("j_from_ode", "differs from the documented "
-                        "time-weighted sum / simulated time",
-                        f"use_state_dims={use} gamma={gamma}: gives {jj!r}, "
-                        f"definition gives {float(exp)!r}")
-                if not jj >= 0.0:
-                    bad("j_from_ode", "negative", f"gives {jj!r}")
-            if use == -1:
-                out["j"] = float(jj)
+        jjs = [ode.j_from_ode(res, n, use, gamma) for use, gamma in J_MENU]
         sc, df = ode.diff_from_ode(res, n)
-        msc, mdf = M.diff_model(rows, n)
-        if np.asarray(sc).tolist() != msc:
-            bad("diff_from_ode", "state+control rows differ",
-                f"gives {np.asarray(sc).tolist()[:2]}.. expected {msc[:2]}..")
-        if np.asarray(df).tolist() != mdf and (mdf or np.asarray(df).size):
-            bad("diff_from_ode", "differentials are not the finite "
-                "differences", f"gives {np.asarray(df).tolist()[:2]}.. "
-                f"expected {mdf[:2]}..")
-    except HarnessError:
-        raise
+        sc = np.asarray(sc).tolist()
+        df = np.asarray(df).tolist()
     except Exception as e:  # noqa
         bad("j/t/diff_from_ode", f"raises {type(e).__name__}", repr(e))
+        return out
+    if float(tt) != rows[-1][-1]:
+        bad("t_from_ode", "not the last time", f"gives {tt!r}, last row "
+            f"time is {rows[-1][-1]!r}")
+    for (use, gamma), jj in zip(J_MENU, jjs):
+        if use == -1:
+            out["j"] = float(jj)
+        if kind == "fail":
+            if jj != M.FAIL_J:
+                bad("j_from_ode", "failure row does not give 1e200",
+                    f"gives {jj!r}")
+            continue
+        if not jj >= 0.0:
+            bad("j_from_ode", "negative", f"gives {jj!r}")
+        if finite and rows[-1][-1] > 0.0:
+            exp = M.j_exact(rows, n, use, gamma)
+            if not M.rel_close(float(jj), exp):
+                bad("j_from_ode", "differs from the documented "
+                    "time-weighted sum / simulated time",
+                    f"use_state_dims={use} gamma={gamma}: gives {jj!r}, "
+                    f"definition gives {float(exp)!r}")
+    if finite and all(rows[i + 1][-1] != rows[i][-1]
+                      for i in range(len(rows) - 1)):
+        msc, mdf = M.diff_model(rows, n)
+        if sc != msc:
+            bad("diff_from_ode", "state+control rows differ",
+                f"gives {sc[:2]}.. expected {msc[:2]}..")
+        if df != mdf and (mdf or df):
+            bad("diff_from_ode", "differentials are not the finite "
+                "differences", f"gives {df[:2]}.. expected {mdf[:2]}..")
 
     # ---- linear test systems: closed form
     b = base_spec(c)
@@ -483,7 +487,7 @@ def execute(p, horizon=None):
                     f"closed form stays below {env:.3g} on [0, {t_limit}] "
                     f"but the result is {kind} with last time "
                     f"{rows[-1][-1]!r}")
-        if kind == "full":
+        if kind == "full" and finite:
             ex_rows = [M.lin_exact(a, cs, start, r[-1])[0] for r in rows]
             scale = max(max(abs(v) for v in er) for er in ex_rows)
             worst = 0.0
@@ -815,7 +819,7 @@ def run(ctx: Ctx) -> None:
     fired_full = sorted((k for k in ft["fired"]), key=lambda s: (len(s), s))
     ctx.part("fault_sequences", executions=ft["n"],
              scripted_sequences=len(seqs),
-             max_faults=max(len(s) for s in seqs),
+             max_faults=max([len(s) for s in seqs] or [0]),
              base_programs=len(bases), outcomes=ft["kinds"],
              fired_fault_patterns={k: ft["fired"][k] for k in fired_full},
              distinct_fired_patterns=len(fired_full),
